@@ -133,7 +133,11 @@ func conservedRunes(in []rune, out []shapex.Glyph) bool {
 type subject struct {
 	b    *shapex.Built
 	font *sfnt.Font
-	maxR int
+	// fontM has the same lookups behind a script list with several language systems of ONE script that
+	// select different features; a request that matches none of them exactly must still get the same
+	// language system from every new Layouter (the choice must not depend on map iteration order)
+	fontM *sfnt.Font
+	maxR  int
 }
 
 func maxRepl(ll gtab.LookupList) int {
@@ -152,7 +156,7 @@ func maxRepl(ll gtab.LookupList) int {
 	return r
 }
 
-func makeFont(ll gtab.LookupList, gd *gdef.Table, order []gtab.LookupIndex, gpos bool) *sfnt.Font {
+func makeFont(ll gtab.LookupList, gd *gdef.Table, order []gtab.LookupIndex, gpos, multi bool) *sfnt.Font {
 	f := fonts.Make(vio.Rand(5), fonts.Opts{Kind: "ttf", N: 8, Cmap: "none"})
 	m := cmap.Format4{}
 	for g := 1; g <= 7; g++ {
@@ -173,6 +177,20 @@ func makeFont(ll gtab.LookupList, gd *gdef.Table, order []gtab.LookupIndex, gpos
 		ScriptList:  gtab.ScriptListInfo{language.MustParse("und-Zyyy"): {Required: 0xFFFF, Optional: []gtab.FeatureIndex{0}}},
 		FeatureList: gtab.FeatureListInfo{{Tag: "test", Lookups: lk}},
 		LookupList:  ll,
+	}
+	if multi {
+		var first []gtab.LookupIndex
+		if len(lk) > 0 {
+			first = lk[:1]
+		}
+		info.FeatureList = gtab.FeatureListInfo{{Tag: "test", Lookups: lk}, {Tag: "test", Lookups: nil}, {Tag: "test", Lookups: first}}
+		info.ScriptList = gtab.ScriptListInfo{
+			language.MustParse("und-Latn"): {Required: 0xFFFF, Optional: []gtab.FeatureIndex{0}},
+			language.MustParse("tr-Latn"):  {Required: 0xFFFF, Optional: []gtab.FeatureIndex{1}},
+			language.MustParse("de-Latn"):  {Required: 0xFFFF, Optional: []gtab.FeatureIndex{2}},
+			language.MustParse("ro-Latn"):  {Required: 0xFFFF, Optional: []gtab.FeatureIndex{1}},
+			language.MustParse("nl-Latn"):  {Required: 0xFFFF, Optional: []gtab.FeatureIndex{2}},
+		}
 	}
 	if gpos {
 		f.Gpos = info
@@ -195,6 +213,15 @@ func (s *subject) newCtx() *gtab.Context { return gtab.NewContext(s.b.LL, s.b.Gd
 func (s *subject) newLay() *sfnt.Layouter {
 	feat := map[string]bool{"test": true}
 	l, err := s.font.NewLayouter(language.MustParse("und-Zyyy"), feat, feat)
+	if err != nil {
+		vio.Fatal(err)
+	}
+	return l
+}
+
+func (s *subject) newLayM() *sfnt.Layouter {
+	feat := map[string]bool{"test": true}
+	l, err := s.fontM.NewLayouter(language.MustParse("fr"), feat, feat)
 	if err != nil {
 		vio.Fatal(err)
 	}
@@ -268,6 +295,31 @@ func protocol(out *vio.Out, s *subject, id int, tag string, pool [][]int, hists 
 			}
 			if !o.ok && !o.unimpl {
 				bad = true
+			}
+		}
+	}
+	if withLay && s.fontM != nil {
+		// object kind 3: every call on a NEW Layouter of the font with several language systems
+		for i, in := range pool {
+			if i >= 2 {
+				break
+			}
+			for rep := 0; rep < 6; rep++ {
+				o := s.callLay(s.newLayM(), in)
+				kind := "apply"
+				if rep == 0 {
+					kind = "fresh"
+				}
+				e := ev{"ev": kind, "case": id, "obj": 3, "i": i + 1}
+				fill(e, o, in, true)
+				out.Emit(e)
+				if o.hung {
+					out.Close()
+					os.Exit(0)
+				}
+				if !o.ok {
+					break
+				}
 			}
 		}
 	}
@@ -409,7 +461,8 @@ func main() {
 				vio.Fatal(err)
 			}
 			s := &subject{b: b, maxR: maxRepl(b.LL)}
-			s.font = makeFont(b.LL, b.Gdef, b.Order, isGpos(c))
+			s.font = makeFont(b.LL, b.Gdef, b.Order, isGpos(c), false)
+			s.fontM = makeFont(b.LL, b.Gdef, b.Order, isGpos(c), true)
 			protocol(out, s, c.ID, "built", c.Inputs, hists, true)
 		}
 		out.Close()
